@@ -457,10 +457,10 @@ theorem setUnits_good (i : Info) (f : Frame) (m : List (Str × Str)) (hg : Good 
         exact ⟨by simp only; rw [hk]; exact hc.nodup, by
           intro f0 hf0 he; simp only at hf0 ⊢; rw [hk]; exact hc.keysOk f0 hf0 he⟩
 
-theorem addColumn_good (i : Info) (f : Frame) (n : Str) (u du fm : Option Str) (hg : Good i) :
-    Good (addColumn i f n u du fm).1 := by
+theorem addColumnCore_good (i : Info) (f : Frame) (n : Str) (u du fm : Option Str) (hg : Good i) :
+    Good (addColumnCore i f n u du fm).1 := by
   have base : Good { i with last := none } := ⟨hg.nodup, by intro f0 hf0; simp at hf0⟩
-  unfold addColumn
+  unfold addColumnCore
   simp only
   cases hfind : f.cols.find? (fun c => c.name = n) with
   | none => simpa using base
@@ -481,6 +481,15 @@ theorem addColumn_good (i : Info) (f : Frame) (n : Str) (u du fm : Option Str) (
       cases hget : get i.reg n with
       | none => exact ⟨by simpa using nodup_keys_set i.reg n _ hg.nodup, by intro f0 hf0; simp at hf0⟩
       | some col => exact ⟨by simpa using nodup_keys_set i.reg n _ hg.nodup, by intro f0 hf0; simp at hf0⟩
+
+theorem addColumn_good (i : Info) (f : Frame) (n : Str) (u du fm : Option Str) (hg : Good i) :
+    Good (addColumn i f n u du fm).1 := by
+  unfold addColumn
+  by_cases h : (u.isNone && dupLabel f n) = true
+  · simp only [h, if_true]
+    exact ⟨hg.nodup, by intro f0 hf0; simp at hf0⟩
+  · simp only [h]
+    exact addColumnCore_good i f n u du fm hg
 
 theorem nodup_zipReg (ps : List (Str × Str)) (r : Reg) (h : (keys r).Nodup) : (keys (zipReg ps r)).Nodup := by
   induction ps generalizing r with
